@@ -17,11 +17,12 @@ func scriptCfg(program string, stdin string) sim.Config {
 		Files:      map[string]sim.File{scriptName: {Data: []byte(program)}},
 		Stdin:      []byte(stdin),
 		StdinErrAt: -1,
+		Budget:     sim.DefaultBudget + 400*len(program),
 	}
 }
 
 func replCfg(stdin string) sim.Config {
-	return sim.Config{Args: []string{"borno"}, Stdin: []byte(stdin), StdinErrAt: -1}
+	return sim.Config{Args: []string{"borno"}, Stdin: []byte(stdin), StdinErrAt: -1, Budget: sim.DefaultBudget + 400*len(stdin)}
 }
 
 // Delivery names the fixed delivery modes.
